@@ -37,8 +37,11 @@ def goenv():
     return e
 
 
+_T0 = time.time()
+
+
 def log(*a):
-    print("[check]", *a, file=sys.stderr, flush=True)
+    print("[check %6.1fs]" % (time.time() - _T0), *a, file=sys.stderr, flush=True)
 
 
 def seed():
@@ -123,7 +126,7 @@ class TLCResult:
 
 
 def tlc(module, cfg_text, wd, workers=1, timeout=3600, heap="8g", simulate=None, extra=None,
-        depth_first=False, coverage=False, name=None):
+        depth_first=False, coverage=False, name=None, many=False):
     """Run TLC on spec/<module>.tla with the given configuration text inside a scratch copy."""
     name = name or module
     os.makedirs(wd, exist_ok=True)
@@ -135,7 +138,12 @@ def tlc(module, cfg_text, wd, workers=1, timeout=3600, heap="8g", simulate=None,
         fh.write(cfg_text)
     meta = os.path.join(wd, "meta-" + name)
     shutil.rmtree(meta, ignore_errors=True)
-    jopts = ["-Xss512m", "-Xmx" + heap, "-XX:+UseParallelGC", "-XX:ParallelGCThreads=4"]
+    if many:
+        # many single-worker TLC processes side by side: the serial collector and two JIT threads
+        # scale 3x better than the parallel collector (measured: 16 x 183k states, 63 s -> 20 s)
+        jopts = ["-Xss512m", "-Xmx" + heap, "-XX:+UseSerialGC", "-XX:CICompilerCount=2"]
+    else:
+        jopts = ["-Xss512m", "-Xmx" + heap, "-XX:+UseParallelGC", "-XX:ParallelGCThreads=4"]
     if depth_first:
         jopts.append("-Dtlc2.tool.queue.IStateQueue=StateDeque")
     cmd = ["java"] + jopts + ["-cp", TLA_CP, "tlc2.TLC", "-workers", str(workers), "-metadir", meta,
@@ -195,7 +203,7 @@ def parallel(jobs, maxpar=8):
 
 
 def validate_chunks(module, const_lines, prefix, nchunks, wd, timeout=3600, heap="6g", maxpar=8,
-                    postcondition="Accepted", spec="Spec"):
+                    postcondition="Accepted", spec="Spec", step_mode=False):
     """Validate <prefix>.<k>.ndjson (k < nchunks) against trace specification `module`.
     Returns (records, rejects) where rejects is a list of (chunk, line, tag)."""
     def job(k):
@@ -207,24 +215,31 @@ def validate_chunks(module, const_lines, prefix, nchunks, wd, timeout=3600, heap
             n = sum(1 for _ in open(tf))
             if n == 0:
                 return (k, 0, [], None)
-            cfg = "CONSTANTS\n  TraceFile = %s\n  RejectFile = %s\n%s\nSPECIFICATION %s\nPOSTCONDITION %s\nCHECK_DEADLOCK FALSE\n" % (
-                tla_string(tf), tla_string(rf), "\n".join("  " + c for c in const_lines), spec, postcondition)
+            cfg = "CONSTANTS\n  TraceFile = %s\n  RejectFile = %s\n%s\nSPECIFICATION %s\nPOSTCONDITION %s\n%sCHECK_DEADLOCK FALSE\n" % (
+                tla_string(tf), tla_string(rf), "\n".join("  " + c for c in const_lines), spec, postcondition,
+                "INVARIANT DoneMark\n" if step_mode else "")
             r = tlc(module, cfg, os.path.join(wd, "tlc%d" % k), workers=1, timeout=timeout, heap=heap,
-                    name="%s_%d" % (module, k))
+                    name="%s_%d" % (module, k), many=nchunks > 2)
             if not r.ok:
                 raise Infra("trace validation did not complete on chunk %d of %s:\n%s" % (k, module, r.output[-3000:]))
-            if r.distinct != n + 1:
+            if not step_mode and r.distinct != n + 1:
                 raise Infra("trace validation consumed %d of %d records (chunk %d)" % (r.distinct - 1, n, k))
             rej = []
+            done = False
             if os.path.exists(rf):
                 for line in open(rf):
                     parts = [x.strip().strip('"') for x in line.strip().split(",")]
-                    if parts and parts[0]:
+                    if len(parts) > 1 and parts[1] == "DONE":
+                        done = True
+                    elif parts and parts[0]:
                         rej.append((k, int(parts[0]), parts[1] if len(parts) > 1 else ""))
+            if step_mode and not done:
+                raise Infra("step-mode trace validation did not reach the end of chunk %d of %s" % (k, module))
             return (k, n, rej, r)
         return f
     results = parallel([job(k) for k in range(nchunks)], maxpar)
     total = sum(r[1] for r in results)
+    log("validated %s: %d records in %d chunks" % (os.path.basename(prefix), total, nchunks))
     rejects = [x for r in results for x in r[2]]
     states = sum((r[3].distinct if r[3] else 0) for r in results)
     trans = sum((r[3].generated if r[3] else 0) for r in results)
